@@ -7,7 +7,7 @@ package serviceinfo
 //@   params r size
 //@   local ErrSizeTooSmall = UnOp#10 | UnOp#12
 //@   local err = Phi#1 | UnOp#10 | call:cbor.Decoder.Decode#1 | call:cbor.Unmarshal#1 | extract1:call:io.ReadFull#1
-//@   props C15
+//@   props C15 C16
 //@   sweep bounds,make,nilmem,panic,nooverflow
 //@   makelimit 65535
 //@   requires r.r != nil ==> hdr(len(r.key)) + len(r.key) <= len(r.rkey)
